@@ -1863,6 +1863,13 @@ func (r *c19Runner) process(st *c19Stats, slot *c19Slot, hist int, tag string, s
 	slot.cur.Store(&d)
 	slot.start.Store(time.Now().UnixNano())
 	res := c19RunOne(reg.id, d, true)
+	// a slow run is only meaningful if it is slow again: the machine may be loaded or a GC cycle may have hit;
+	// the time of an input is the fastest of up to three runs
+	for retry := 0; retry < 2 && res.elapsed > 2*time.Second; retry++ {
+		if again := c19RunOne(reg.id, d, true); again.elapsed < res.elapsed {
+			res.elapsed = again.elapsed
+		}
+	}
 	slot.start.Store(0)
 	st.inputs++
 	st.ops[in.kind]++
